@@ -692,6 +692,14 @@ def _run(ck, rng, thorough, facts, tmp):
                 ck.fail_input("C08:meta:expanded_runs-differs-from-runs", "meta.expanded_runs=%r, %d runs" % (meta.get("expanded_runs"), len(out[1])), replay_obj)
             if [bm.get("mode") for bm in meta.get("blocks", [])] != [b["mode"] for b in spec["blocks"]]:
                 ck.fail_input("C08:meta:blocks-out-of-declaration-order", "meta.blocks modes %r" % [bm.get("mode") for bm in meta.get("blocks", [])], replay_obj)
+            # the planned (arithmetic) block sizes are the sizes of the documented per-block expansions
+            want_sizes = []
+            for b in spec["blocks"]:
+                one = doc_expand({"combine": CB, "max_runs": 10 ** 12, "blocks": [b]})
+                want_sizes.append(len(one[1]) if one[0] == "ok" else None)
+            got_sizes = [bm.get("size") for bm in meta.get("blocks", [])]
+            if got_sizes != want_sizes:
+                ck.fail_input("C08:meta:block-size-differs-from-block-expansion", "meta block sizes %r, documented per-block expansions have %r runs" % (got_sizes, want_sizes), replay_obj)
         key = out[1] if out[0] == "err" else "ok"
         dist[key] = dist.get(key, 0) + 1
         oo = by_origin.setdefault(origin[i].split(":")[0] + (":" + origin[i].split(":")[1] if origin[i].startswith("malformed") else ""), {})
